@@ -35,7 +35,7 @@ def build(chk):
     coefs = COEFS_QUICK + (COEFS_MORE if chk.tier == 'thorough' else [])
     chk.bounds = {'constraint functions': 'f = c1*x1 + c2*x2 + c12*x1*x2 + k for the listed concrete coefficient tuples (integers and dyadic rationals, exact in binary64): ' +
                   '; '.join(str(tuple(str(x) for x in c)) for c in coefs),
-                  'variable listing': 'ids 1,2,9 listed ascending or as 2,9,1', 'variables': 'x1, x2 integer or binary (kind by explored choice, also continuous for the rejection path); integer box endpoints symbolic in [-3,3] with lower <= upper; '
+                  'variable listing': 'ids 1,2,9 listed ascending or as 2,9,1', 'variables': 'x1, x2 integer or binary (kind by explored choice; continuous, and for x1 also semi-continuous / semi-integer / unspecified, for the rejection path); integer box endpoints symbolic in [-3,3] with lower <= upper; '
                   'binary variables without explicit bound', 'points': 'x1, x2 symbolic integers in the box: the solver covers every lattice point and (through the closed form s = -f(x)/b) every slack value',
                   'limits': 'max_integer_range and slack_upper_bound from {1, 3, 1000} resp. {1, 4}'}
     chk.assumptions += ['R-model; coefficients are concrete because Rational64::approximate_float (continued fractions on f64) is a concrete library model, validated differentially '
@@ -44,7 +44,10 @@ def build(chk):
 
     def setup(P, coef, kinds_allowed):
         c1, c2, c12, k = [fin(Fraction(c)) for c in coef]
-        kinds = [kinds_allowed[P.choose(len(kinds_allowed))] for _ in range(2)]
+        # the first variable also takes the kinds that are neither integer nor binary nor plainly continuous
+        # (semi-continuous 5, semi-integer 4, unspecified 0): only Binary/Integer variables may be converted
+        k1 = kinds_allowed + [5, 4, 0]
+        kinds = [k1[P.choose(len(k1))], kinds_allowed[P.choose(len(kinds_allowed))]]
         ends, xs, vars_ = [], [], []
         for i in (1, 2):
             if kinds[i - 1] == 1:
@@ -81,7 +84,7 @@ def build(chk):
             inst = B.instance(spec)
             before = deep_clone(inst)
             used = {i for ids, c in sf.monos for i in ids if c.r != 0}
-            continuous_used = any(kinds[i - 1] == 3 for i in used)
+            continuous_used = any(kinds[i - 1] not in (1, 2) for i in used)
 
             def witness(model):
                 idict = chk.conv.to_dict(B.instance(spec), MSGI, model)
@@ -166,7 +169,7 @@ def build(chk):
             inst = B.instance(spec)
             before = deep_clone(inst)
             used = {i for ids, c in sf.monos for i in ids if c.r != 0}
-            continuous_used = any(kinds[i - 1] == 3 for i in used)
+            continuous_used = any(kinds[i - 1] not in (1, 2) for i in used)
 
             def witness(model):
                 idict = chk.conv.to_dict(B.instance(spec), MSGI, model)
